@@ -58,6 +58,14 @@ CHECKS = {
    "deterministic simulation: media-fault enumeration on the simulated disk between sessions",
    "Small generated indexes (1-3 segments, deletions, non-empty log) are closed, then every file is altered - single-byte xor with masks 01/02/10/80/FF at every offset and every truncation length in the thorough tier, a PRNG sample per file in the quick tier - and reopened with the real code: open+reader+match_all+probe battery must fail or return exactly the uncorrupted results; for wal.log a new writer may recover only a prefix of the queue; never a panic.",
    "One media fault at a time; dead bytes (no observable change) are not violations.", "3 C17"),
+ "C23": ("http", "exploration",
+   "deterministic simulation: request histories against the real router in-process, queue reference model",
+   "Seeded histories of valid and invalid /add (NDJSON), /bulk, /delete, /commit, /refresh, /compact, /search, /stats requests are handed to the real axum Router as a tower Service (no socket) on a current-thread tokio runtime; a 2xx write appends its operations to the model queue, a rejected one appends nothing, a 2xx /commit folds the queue; after every commit /search match_all and /stats.documents must equal the model; bodies are split at arbitrary byte boundaries.",
+   "Sequential clients; hyper's connection layer is not exercised; index on tmpfs (no crash/disk fault in this property).", "3 C23, 2.6"),
+ "C24": ("http", "exploration",
+   "deterministic simulation: request histories with transport faults under a simulated (paused) clock",
+   "Same runs plus unknown paths/methods, wrong content types, malformed and mutated bodies, and transport faults: arbitrary chunk boundaries, a client that stalls forever (the simulated clock runs to the 30 s TimeoutLayer in microseconds), bodies over the limit with and without Content-Length. Every request must resolve; 2xx bodies must have the documented shape, every non-2xx body must be {error:{type,reason}}; classes known by construction get their code (4xx invalid, 404 no index/unknown path, 405, 409 second init, 413 oversize, 504 stall); /healthz stays 200.",
+   "Same as C23; the 'however malformed' input space is only sampled - simulation contributes the transport/time dimension and cross-request state.", "3 C24, 2.6"),
  "C28": ("model", "exploration",
    "deterministic simulation with a path monitor on the file-system seam",
    "Relocate is a generated operation: the index directory is copied inside SimFs, the original kept / emptied / removed, the copy opened and the history continues (search, add, commit, compaction); contents must equal the model, no FS primitive may touch a path outside the new root, the original's files must stay byte-identical.",
@@ -81,7 +89,7 @@ def main():
     na = [{"property_id": k, "reason": v} for k, v in sorted(NA.items())]
     pending = {
 
-      "C23": "E3 http", "C24": "E3 http", "C27": "E4 idb",
+      "C27": "E4 idb",
     }
     for k, v in sorted(pending.items()):
         if k not in CHECKS:
@@ -100,6 +108,7 @@ def main():
       "engines": [
         {"name": "E1", "path": "/verif/sim/src/{simfs,crash,model,work,e1_*}.rs", "serves_properties": ["C01","C02","C03","C04","C14","C17","C28"], "kind_free_text": "single-threaded deterministic simulation of searchlite-core on a simulated disk (SimFs) with crash-image enumeration, fault plans, media faults, path monitor and reference model"},
         {"name": "E2", "path": "/verif/sim/src/{sched,e2}.rs", "serves_properties": ["C05","C06"], "kind_free_text": "real threads under a seeded baton scheduler (one runs at a time; yield points at lock hooks, FS primitives, call boundaries) + Wing-Gong linearizability check against the reference model"},
+        {"name": "E3", "path": "/verif/sim/e3http/src/main.rs", "serves_properties": ["C23","C24"], "kind_free_text": "the real axum router driven in-process as a tower Service on a current-thread tokio runtime with paused clock; simulated clients with chunking, stalls and oversize bodies; queue model + response-shape oracle"},
       ],
       "checks": checks,
       "not_applicable": sorted(na, key=lambda x: x["property_id"]),
